@@ -179,10 +179,18 @@ func exclusiveC09(c *Ctx) {
 		for _, in := range an.FieldStores(fn, "exclusiveItem.mutex") {
 			st := in.(*ssa.Store)
 			_, fresh := st.Val.(*ssa.Alloc)
-			same := an.IsLoadOfField(st.Val, "exclusiveItem.mutex")
+			val := st.Val
+			if !fresh && !an.IsLoadOfField(val, "exclusiveItem.mutex") {
+				// a local alias of the predecessor's mutex (mu := item.mutex, possibly captured)
+				if srcs := P.Sources(val); len(srcs) == 1 {
+					val = srcs[0]
+					_, fresh = val.(*ssa.Alloc)
+				}
+			}
+			same := an.IsLoadOfField(val, "exclusiveItem.mutex")
 			if same {
 				// must be the predecessor in the same map slot (the captured current item)
-				ld, _ := isLoad(st.Val)
+				ld, _ := isLoad(val)
 				base := ld.X.(*ssa.FieldAddr).X
 				srcs := P.Sources(base)
 				okb := len(srcs) > 0
@@ -338,7 +346,8 @@ func exclusiveC10(c *Ctx) {
 			return false
 		}
 		// (the item itself may be the result of the earlier lookup, not a variable it was stored into)
-		return (isLk(b.X) || isLk(b.Y)) && b.X != b.Y
+		// (a defensive `v != nil` on the looked-up entry is not the validity test)
+		return (isLk(b.X) || isLk(b.Y)) && b.X != b.Y && !isNilConst(b.X) && !isNilConst(b.Y)
 	})
 	if len(eqIfs) != 1 {
 		q.undecided("PATH", "validity test e.work[key] == item", "the re-validation of the item against the map was not found as a single equality test")
